@@ -23,7 +23,8 @@ TRUSTED_BASE = [
 
 def _mk(r, eps, sig, rc, shift):
     from PyMatterSim.static.hessians import PairInteractions
-    return PairInteractions(r=r, epsilon=eps, sigma=sig, r_c=rc, shift=shift)
+    # the flag in one of the types a caller may hold it in (bool, numpy.bool_, 0/1): chosen from the arguments, reproducible
+    return PairInteractions(r=r, epsilon=eps, sigma=sig, r_c=rc, shift=common.truthy(shift, repr((r, eps, sig, rc))))
 
 
 def real_call(c):
